@@ -222,10 +222,14 @@ func (e *Eng) constant(fn *ssa.Function, name string) (*big.Int, bool) {
 	if !ok {
 		return nil, false
 	}
-	if c.Val().Kind() != constant.Int {
-		return nil, false
+	v := c.Val()
+	if v.Kind() != constant.Int {
+		v = constant.ToInt(v)
+		if v.Kind() != constant.Int {
+			return nil, false
+		}
 	}
-	bi, ok := new(big.Int).SetString(c.Val().ExactString(), 10)
+	bi, ok := new(big.Int).SetString(v.ExactString(), 10)
 	return bi, ok
 }
 
@@ -428,14 +432,70 @@ func (e *Eng) verifyFunc(fc *FuncContract, refute bool, unrollK int) (res *FuncR
 				if lf.K == LObj && !lf.Str {
 					tr.params[pi].L[i] = Int(next)
 					next++
+					// pointers point at the start of their object in the bounded search
+					lv := layoutOf(p.T).Leaves
+					if i+1 < len(lv) && lv[i+1].K == LOff && !(i+2 < len(lv) && lv[i+2].K == LLen) {
+						tr.params[pi].L[i+1] = Int(0)
+					}
 				}
 			}
 		}
 	}
 	vc.Replay = &ReplayInfo{Fn: fn, Params: tr.params, M0: m0, Contract: fc}
 	ctx := tr.calleeCtx(fn, tr.params, nil, tr.entry, tr.entry)
+	// function-local recursive spec functions, evaluated over the entry state
+	tr.recSpecs = map[string]*SpecFunc{}
+	for _, rs := range fc.RecSpecs {
+		tr.recSpecs[rs.Name] = rs
+	}
+	for _, rs := range fc.RecSpecs {
+		rc := *ctx
+		rc.clamp = true
+		rc.bound = map[string]SV{}
+		var ps []*Term
+		for _, p := range rs.Params {
+			s := Sym(p+"!rec", SInt)
+			ps = append(ps, s)
+			rc.bound[p] = mathInt(s)
+		}
+		body := rc.evalInt(rs.Body)
+		vc.DefineRec("rs_"+rs.Name, ps, body)
+	}
 	for _, c := range fc.Requires {
 		vc.Assume(ctx.fact(c.E))
+	}
+	// facts proved by induction on the last variable (from 0), then available as lemmas
+	for _, ind := range fc.Inducts {
+		if refute {
+			break
+		}
+		mk := func(last *Term) (*Term, []*Term) {
+			ic := *ctx
+			ic.bound = map[string]SV{}
+			var vars []*Term
+			for i, p := range ind.Params {
+				if i == len(ind.Params)-1 && last != nil {
+					ic.bound[p] = mathInt(last)
+					continue
+				}
+				s := Sym(p+"!ind", SInt)
+				vars = append(vars, s)
+				ic.bound[p] = mathInt(s)
+			}
+			return ic.goal(ind.Body), vars
+		}
+		base, vars0 := mk(Int(0))
+		if len(vars0) == 0 {
+			vc.Oblige("induct."+ind.Name, "base", base, ind.Pos)
+		} else {
+			vc.Oblige("induct."+ind.Name, "base", Forall(vars0, base), ind.Pos)
+		}
+		nsym := Sym(ind.Params[len(ind.Params)-1]+"!ind", SInt)
+		pn, _ := mk(nsym)
+		pn1, vars1 := mk(Add(nsym, Int(1)))
+		all := append(append([]*Term{}, vars1...), nsym)
+		vc.Oblige("induct."+ind.Name, "step", Forall(all, Implies(And(Le(Int(0), nsym), pn), pn1)), ind.Pos)
+		vc.Assume(Forall(all, Implies(Le(Int(0), nsym), pn)))
 	}
 	if tr.recovering && (fc.HasModifies || fc.Pure) && !refute {
 		tr.storeChecks = true
